@@ -411,6 +411,7 @@ func init() {
 			}
 			genArrivals(g, sc)
 			sc.SetInt("seqmode", 1)
+			sc.SetInt("raw", g.Intn(2))
 			return sc
 		},
 		Valid: c05Valid,
@@ -432,6 +433,7 @@ func init() {
 			for i := 0; i < k; i++ {
 				sc.Sources = append(sc.Sources, SrcSpec{Mode: "async", Script: genScript(g, (i+1)*10, 3, "CCE-", false)})
 			}
+			sc.SetInt("raw", g.Intn(2))
 			return sc
 		},
 		Valid: func(sc *Scn) bool {
@@ -487,7 +489,7 @@ func runC05Seq(e *Env) {
 	}
 	o := combs[sc.Sub].Build(e, obs)
 	rec := e.NewRec("o")
-	h := e.Subscribe(o, rec.Observer(), nil)
+	h := e.Subscribe(o, rec.Obs(), nil)
 	e.Settle()
 	_ = h
 	// the set of model states compatible with what has been observed so far
@@ -578,7 +580,7 @@ func runC05Conc(e *Env) {
 	}
 	o := combs[sc.Sub].Build(e, obs)
 	rec := e.NewRec("o")
-	e.Subscribe(o, rec.Observer(), nil)
+	e.Subscribe(o, rec.Obs(), nil)
 	e.SettleFor(50 * Unit)
 	if e.K.Capped() {
 		return
